@@ -105,12 +105,17 @@ def prepare_lean(prop: str) -> dict:
                 st["log"] += "\n[audit]\n" + out[-3000:]
             for m in re.finditer(r"'([^']+)' depends on axioms: \[([^\]]*)\]", out.replace("\n", " ")):
                 axs = {a.strip() for a in m.group(2).split(",") if a.strip()}
-                st["axioms"][m.group(1)] = sorted(axs)
+                name = m.group(1).removeprefix("Tucan.")
+                st["axioms"][name] = sorted(axs)
                 extra = axs - ALLOWED_AXIOMS
                 if extra:
-                    st["bad_axioms"][m.group(1)] = sorted(extra)
+                    st["bad_axioms"][name] = sorted(extra)
             for m in re.finditer(r"'([^']+)' does not depend on any axioms", out):
-                st["axioms"][m.group(1)] = []
+                st["axioms"][m.group(1).removeprefix("Tucan.")] = []
+            missing = [t for t in st["theorems"] if t not in st["axioms"]]
+            if missing:
+                st["proofs_ok"] = False
+                st["log"] += f"\n[audit] no axiom report for {missing}"
     return st
 
 
